@@ -1,4 +1,4 @@
-"""C02 check configuration. Open findings C02-N7, C02-N8 (known/C02.json); F7 F18 F20 F21 and N1..N6 were repaired in /repo."""
+"""C02 check configuration. Open finding C02-N7 (known/C02.json); F7 F18 F20 F21, N1..N6 and N8 were repaired in /repo."""
 
 import re
 
@@ -16,13 +16,6 @@ def n7(case, rec, exp):
     a, b = _diff(rec)
     return _meta(case, ("const2var",)) and case.get("place") == "eval" and not case.get("strict") and \
         b == "throw:ReferenceError" and re.search(r"function Ctor\d+\(\) \{[^}]*\bk\d+\b", case.get("b", "")) is not None
-
-
-def n8(case, rec, exp):
-    # the program executes a sloppy `fnK = 1;` on its own function-name binding: from then on operand-stack
-    # slots of that activation are shifted, which any rewrite may turn into a visible difference or a host panic
-    return case.get("kind") == "meta" and not case.get("strict") and "selfassign" in (case.get("feat") or []) and \
-        re.search(r'(?<!"use strict"; )try \{ fn\d* = 1;', case.get("a", "").replace('\\"', '"')) is not None
 
 
 CFG = {
@@ -73,7 +66,6 @@ CFG = {
     ],
     "predicates": {
         "C02.sloppy_eval_function_decl_cannot_see_eval_lexicals": n7,
-        "C02.sloppy_store_to_function_name_leaks_stack": n8,
     },
     "manifest": {
         "text": ("proof (partial only in the tie): for EVERY program of a core binding fragment (var/let/const with TDZ, blocks, closures, "
